@@ -14,7 +14,7 @@ from ..common import Inconclusive, log
 from ..mir import parse as P
 from ..mir import bmc as B
 from ..mir import cmodels as CM
-from ..mir.interp import Int, Panic, Ref, Tup, UNIT, get_path
+from ..mir.interp import Adt, Int, Panic, Ref, Tup, UNIT, get_path
 from ..mir.models import write_ref
 
 PID = "C12"
@@ -300,8 +300,23 @@ def p_slot(it, ctx, callee, args):
     return Opaque("slot")
 
 
+def m_injector_steal(it, ctx, callee, args):
+    """`Injector::steal_batch_and_pop`: Success iff the injector holds an item (Retry is not modelled: the callers loop on it)"""
+    r = take(it, ctx, (2,), "pop from injector")
+    if z3.is_true(z3.simplify(r)):
+        pset(it, (4, it.thread), z3.BoolVal(True))
+        pset(it, (6,), cnt(pget(it, 6).t + 1))
+        item = Tup((addr(),), name="WorkItem") if getattr(it.system, "item_kind", "") == "workitem" else addr()
+        return Adt("Steal", "Success", (item,))
+    return Adt("Steal", "Empty")
+
+
+def m_stealers_len(it, ctx, callee, args):
+    return Int(it.system.T, "usize")
+
+
 MARKING_PRIVATE = ("MarkingTask::pop_local", "Segment::push", "Segment::has_capacity", "Header::try_mark", "verif_slot")
-MARKING_VISIBLE = ("MarkingTask::pop_worker", "MarkingTask::pop_global", "MarkingTask::steal", "Worker::push", "verif_child_exists")
+MARKING_VISIBLE = ("MarkingTask::pop_worker", "Injector::steal_batch_and_pop", "MarkingTask::steal", "Worker::push", "verif_child_exists")
 
 
 def visible_marking(callee):
@@ -391,8 +406,9 @@ def vec_push_local(it, ctx, callee, args):
     return m_vec_push(it, ctx, callee, args)
 
 
-COPY_PRIVATE = ("CopyTask::pop_local", "CopyTask::is_young", "Vec::len", "Vec::push", "verif_slot", "verif_copied_by_me")
-COPY_VISIBLE = ("CopyTask::pop_worker", "CopyTask::pop_global", "CopyTask::steal", "Worker::push", "verif_child_exists")
+COPY_PRIVATE = ("CopyTask::pop_local", "CopyTask::is_young", "Vec::len", "Vec::push", "verif_slot", "verif_copied_by_me",
+                "core::slice::<impl [Stealer<WorkItem>]>::len")
+COPY_VISIBLE = ("CopyTask::pop_worker", "Injector::steal_batch_and_pop", "CopyTask::steal", "Worker::push", "verif_child_exists")
 
 
 def visible_copy(callee):
@@ -414,7 +430,11 @@ def build_system_copy(rt_prog, drv_prog, nworkers, budget, initial, local_max=0)
     models.insert(0, (_re.compile(r"(crossbeam_deque::)?(deque::)?Worker::push"), hk_worker_push))
     models.insert(0, (_re.compile(r"Vec::len"), vec_len_local))
     models.insert(0, (_re.compile(r"Vec::push"), vec_push_local))
+    models.insert(0, (_re.compile(r"(crossbeam_deque::)?(deque::)?Injector::steal_batch_and_pop"), m_injector_steal))
+    models.insert(0, (_re.compile(r"core::slice::<impl \[Stealer<.*>\]>::len"), m_stealers_len))
     sysm = B.System([rt_prog, drv_prog], models, visible_copy, nworkers)
+    sysm.extra_discr = {"Steal": {"Empty": 0, "Success": 1, "Retry": 2}}
+    sysm.item_kind = "workitem"
     term = Tup((Int(nworkers, "usize"), CM.mk_atomic(Int(nworkers, "usize")), CM.mk_atomic(Int(0, "usize")),
                 CM.mk_mutex(), CM.mk_condvar(1)), name="Terminator")
     sysm.add_root("term", term)
@@ -426,7 +446,7 @@ def build_system_copy(rt_prog, drv_prog, nworkers, budget, initial, local_max=0)
     MN = "dora-runtime/src/gc/swiper/minor.rs"
     unit = lambda v: (lambda it, ctx, fn, args: v)
     sysm.hooks = {
-        "CopyTask::pop_local": ck_pop_local, "CopyTask::pop_worker": ck_pop_worker, "CopyTask::pop_global": ck_pop_global,
+        "CopyTask::pop_local": ck_pop_local, "CopyTask::pop_worker": ck_pop_worker,
         "CopyTask::steal": ck_steal, "CopyTask::is_young": ck_is_young,
         "Address::to_obj": unit(Opaque("obj")), "Runtime::shape_base": unit(addr(0)), "Slot::get": unit(addr(8)),
         "Slot::relocate": unit(UNIT), "Lab::make_iterable_young": unit(UNIT), "Lab::make_iterable_old": unit(UNIT),
@@ -458,7 +478,11 @@ def build_system_marking(rt_prog, drv_prog, nworkers, budget, initial):
     models = list(POOL_MODELS) + CM.all_models()
     models.insert(0, (__import__("re").compile(r"(crossbeam_deque::)?(deque::)?Worker::push"), hk_worker_push))
     models.insert(0, (__import__("re").compile(r"(fixedbitset::)?FixedBitSet::set"), lambda it, ctx, callee, args: UNIT))
+    models.insert(0, (__import__("re").compile(r"(crossbeam_deque::)?(deque::)?Injector::steal_batch_and_pop"), m_injector_steal))
+    models.insert(0, (__import__("re").compile(r"core::slice::<impl \[Stealer<.*>\]>::len"), m_stealers_len))
     sysm = B.System([rt_prog, drv_prog], models, visible_marking, nworkers)
+    sysm.extra_discr = {"Steal": {"Empty": 0, "Success": 1, "Retry": 2}}
+    sysm.item_kind = "address"
     term = Tup((Int(nworkers, "usize"), CM.mk_atomic(Int(nworkers, "usize")), CM.mk_atomic(Int(0, "usize")),
                 CM.mk_mutex(), CM.mk_condvar(1)), name="Terminator")
     sysm.add_root("term", term)
@@ -470,7 +494,8 @@ def build_system_marking(rt_prog, drv_prog, nworkers, budget, initial):
     MK = "dora-runtime/src/gc/swiper/marking.rs"
     unit = lambda v: (lambda it, ctx, fn, args: v)
     sysm.hooks = {
-        "MarkingTask::pop_local": hk_pop_local, "MarkingTask::pop_worker": hk_pop_worker, "MarkingTask::pop_global": hk_pop_global,
+        # (pop_global runs from its real MIR; the injector below it is the model m_injector_steal)
+        "MarkingTask::pop_local": hk_pop_local, "MarkingTask::pop_worker": hk_pop_worker,
         "MarkingTask::steal": hk_steal,
         "Address::to_obj": unit(Opaque("obj")), "Region::start": unit(addr(0)), "Address::offset_from": unit(Int(0, "usize")),
         "Object::size": unit(Int(8, "usize")), "Slot::get": unit(addr(8)), "Region::contains": unit(z3.BoolVal(True)),
@@ -538,6 +563,8 @@ def run_config(rt, drv, N, budget, initial, K, tmo, deadline, qjobs=1, variant="
             z3.Or(*[U.V[k]["S"][svar(sysm, "sched", t)] == 0x80 for k in range(K + 1) for t in range(N)])),
            ("witness-wake_up-fast-path", U.fired(lambda e: "wake_up:bb2" in B.node_name(e.src) and "wake_up" not in B.node_name(e.dst)
                                                   and e.panic is None))]
+    if N == 1:
+        wit = wit[:1]          # a single worker never sleeps and wake_up() returns at once
     qs = BC.standard_queries(U, [("exactly-once", bad_once)], wit)
     res["queries"] = BC.decide_all(U, qs, tmo, "c12-%d-%d-%d" % (N, budget, K), qjobs, PID, "N=%d B=%d" % (N, budget))
     res["cfg"] = {"workers": N, "budget": budget, "initial": initial}
@@ -553,10 +580,11 @@ CONFIGS = {
     # (workers, budget, initial items, K, variant): "driver" = worker loop of engines/drivers/src/c12.rs,
     # "marking" = the real MarkingTask::{run, pop, trace, defensive_push} of gc/swiper/marking.rs
     # "copy" = the real CopyTask::{trace_gray_objects, trace_*_object, push, push_item, defensive_push, pop} of minor.rs
-    "quick": [(2, 1, 1, 52, "driver"), (2, 1, 1, 52, "marking"), (2, 1, 1, 52, "copy"), (2, 2, 1, 40, "driver")],
+    "quick": [(2, 1, 1, 52, "driver"), (2, 1, 1, 52, "marking"), (2, 1, 1, 52, "copy"), (2, 2, 1, 40, "driver"),
+              (1, 2, 1, 30, "marking"), (1, 2, 1, 30, "copy")],      # single worker: the `total == 1` fast path
     "thorough": [(2, 1, 1, 52, "driver"), (2, 1, 1, 52, "marking"), (2, 2, 1, 75, "driver"), (2, 2, 1, 75, "marking"),
                  (2, 3, 1, 95, "driver"), (3, 1, 1, 72, "driver"), (3, 1, 1, 72, "marking"), (3, 2, 1, 85, "driver"),
-                 (2, 1, 1, 52, "copy"), (2, 2, 1, 75, "copy1")],
+                 (2, 1, 1, 52, "copy"), (2, 2, 1, 75, "copy1"), (1, 2, 1, 30, "marking"), (1, 2, 1, 30, "copy"), (1, 3, 1, 40, "driver")],
 }
 
 
